@@ -66,8 +66,8 @@ def main():
         mod.run(ctx)
     except tlc.TlcError as ex:
         msg = str(ex).strip()
-        os.makedirs(os.path.join(ROOT, "out", a.pid), exist_ok=True)
-        with open(os.path.join(ROOT, "out", a.pid, "machinery_failure.txt"), "w") as f:
+        os.makedirs(os.path.join(tlc.OUT, a.pid), exist_ok=True)
+        with open(os.path.join(tlc.OUT, a.pid, "machinery_failure.txt"), "w") as f:
             f.write(msg + "\n")
         print(msg)
         print("MACHINERY-FAILURE %s: %s" % (a.pid, " | ".join(msg.splitlines()[-3:])[:600]))
